@@ -124,6 +124,7 @@ def check(ctx: Ctx) -> None:
     ctx.rule("R4.3", "a value returned by an Optional-annotated function (peek) is used as operand of `in <str>`, attribute base or subscript base only under an `is not None` guard")
     ctx.rule("R4.4", "implicit raisers: int(<float>) needs an upper-bound/finiteness guard; dict[key] and list.remove(x) in parser/tokenizer need a dominating membership test")
     ctx.rule("R4.5", "input-controlled recursion (call-graph cycles reachable from parse_cdc) is under a handler that converts RecursionError, or carries a depth bound")
+    ctx.rule("R4.8", "containers the parser consumes with remove/pop/clear are fresh per call (no state shared between elements): valid codes cannot be rejected because of earlier elements")
     ctx.rule("R4.6", "callers guarding parse_cdc: exception types they let through (informational)")
     ctx.rule("R4.7", "side conditions of the triage table: parser constructs connections from lists and calls the element setters with keywords only")
     ctx.assumptions += [
@@ -214,6 +215,9 @@ def check(ctx: Ctx) -> None:
                     ok = True
     elif len(rets) == 1 and isinstance(rets[0].value, (ast.DictComp, ast.Dict)):
         ok = True
+    # the declared return type is the contract for any other shape (e.g. a copy of a cached table)
+    if not ok and ge.node.returns is not None and norm(ge.node.returns).startswith("Dict["):
+        ok = all(isinstance(r_.value, (ast.Call, ast.Name, ast.Dict, ast.DictComp, ast.Subscript)) for r_ in rets)
     if ok:
         ctx.ok()
     else:
@@ -379,6 +383,32 @@ def check(ctx: Ctx) -> None:
                                   f"{d}.remove({k}) is not dominated by a membership test: ValueError without explanation is tolerated, but this one is an internal inconsistency")
     if n_imp < 4:
         raise AnalysisError(f"R4.4: only {n_imp} implicit-raiser sites found (floor 4)")
+    # R4.8: containers the parser consumes (remove/pop/clear) are built fresh in the same call
+    n_fresh = 0
+    from ..prov import assignments
+    from ..effects import _is_fresh_value
+    for q in sorted(r.reached):
+        fi = model.funcs[q]
+        if fi.module != f"{CIRC}.parser":
+            continue
+        for n in r.live(fi):
+            if isinstance(n, ast.Call) and isinstance(n.func, ast.Attribute) and n.func.attr in ("remove", "pop", "clear") \
+                    and isinstance(n.func.value, ast.Name) and n.func.value.id not in ("self",):
+                nm = n.func.value.id
+                binds = [b for b in assignments(fi.node, nm) if b[2] in ("assign", "unpack")]
+                if not binds:
+                    continue  # a parameter: owned by the caller
+                n_fresh += 1
+                ctx.instance("R4.8", f"{fi.qual}: {nm}.{n.func.attr}(…) consumes a list built in this call")
+                stale = [b for b in binds if b[1] is not None or not _is_fresh_value(b[0].value, nm)]
+                if stale:
+                    ctx.violation("R4.8", f"{fi.qual}:{nm}:shared", fi.module, stale[0][0],
+                                  f"{fi.qual} consumes `{nm}` with .{n.func.attr}(), but `{nm}` is bound to {norm(stale[0][0].value)[:60]} — not a list built "
+                                  f"in this call: state shared between elements is depleted, and later valid elements of the same class are rejected")
+                else:
+                    ctx.ok()
+    if n_fresh < 2:
+        raise AnalysisError(f"R4.8: only {n_fresh} consumed local containers found in the parser (floor 2)")
 
     # R4.5 recursion --------------------------------------------------------------------------------------
     cyc = [c for c in r.cycles() if any(model.funcs[q].module.startswith(CIRC) for q in c)]
@@ -450,13 +480,24 @@ def _recursion_converted(model, r: Reach, cycle: List[str]) -> bool:
     every path from the root, or a function of the cycle compares a depth
     counter and raises."""
     cyc = set(cycle)
-    # depth bound inside the cycle
+    # depth bound inside the cycle: every recursive path must go through a function that checks the bound,
+    # i.e. removing the bounded functions from the cycle must leave no cycle
+    bounded = set()
     for q in cycle:
         fi = model.funcs[q]
         for n in walk_ordered(fi.node):
             if isinstance(n, ast.If) and any("depth" in norm(x).lower() or "nest" in norm(x).lower() for x in [n.test]) \
                     and any(isinstance(s, ast.Raise) for s in n.body):
-                return True
+                bounded.add(q)
+    if bounded:
+        import networkx as nx
+        g = nx.DiGraph()
+        for a in cycle:
+            for b in r.edges.get(a, ()):
+                if b in cyc and a not in bounded and b not in bounded:
+                    g.add_edge(a, b)
+        if not any(len(c) > 1 or g.has_edge(next(iter(c)), next(iter(c))) for c in nx.strongly_connected_components(g)):
+            return True
     # handler on the way in: remove functions whose calls toward the cycle are all inside try/except RecursionError
     def call_guarded(fi, call) -> bool:
         return any(any(x in names for x in ("RecursionError", "RuntimeError", "Exception", "BaseException"))
